@@ -1697,6 +1697,12 @@ func undoDel(totalRows uint8, positions, deleted []uint64, numLeaves uint64) []u
 		sibPos := Parent(deTwinedPos, totalRows)
 
 		for j, pos := range positions {
+			// A leaf that was added by the block itself didn't exist when the
+			// deletions of the block happened. It's not moved by them.
+			if !inForest(pos, numLeaves, totalRows) {
+				continue
+			}
+
 			// If these positions are in different subtrees, continue.
 			subtree, _, _, _ := DetectOffset(translatePos(deTwinedPos, totalRows, TreeRows(numLeaves)), numLeaves)
 			subtree1, _, _, _ := DetectOffset(translatePos(pos, totalRows, TreeRows(numLeaves)), numLeaves)
